@@ -3,7 +3,7 @@ from .. import scriptprop, traceprop
 from . import C04seq
 
 ID = "C04"
-GEN = ["MapHooks.lean", "LockDiscipline.lean"]   # atomic sites + hooks of map.go regenerated from the source (tie 4B)
+GEN = ["MapHooks.lean", "LockDiscipline.lean", "MapFlow.lean"]   # atomic sites + hooks of map.go regenerated from the source (tie 4B)
 RULE = ("concurrent: step-level traces of the real code under the controlled scheduler, replayed label for label in the Lean transition system Model.SyncMapConc (judge C04conc); "
         "API-level histories under the controlled scheduler (every schedule with <= 2 preemptions of a catalogue of 2-3 goroutine programs; random programs and schedules) "
         "and native runs (also under the race detector), judged by the Lean driver for linearizability to map[K]V and for the Range predicate; sequential: histories of load/store/loadorstore/loadanddelete/delete/range over 5 keys (small, so that promotion misses >= len(dirty), expunge and unexpunge happen constantly), "
